@@ -665,7 +665,14 @@ func (f *SQLFormatter) formatJoin(join *ast.JoinClause) error {
 	f.builder.WriteString(" ")
 	f.formatTableReference(&join.Right)
 
-	if join.Condition != nil {
+	if list, ok := join.Condition.(*ast.ListExpression); ok {
+		// a column list is how the parser stores JOIN ... USING (a, b)
+		f.builder.WriteString(" ")
+		f.writeKeyword("USING")
+		f.builder.WriteString(" (")
+		f.formatExpressionList(list.Values, ", ")
+		f.builder.WriteString(")")
+	} else if join.Condition != nil {
 		f.builder.WriteString(" ")
 		f.writeKeyword("ON")
 		f.builder.WriteString(" ")
